@@ -200,6 +200,34 @@ class C12(Prop):
                 continue
             cases.append({"kind": "ham", "method": "SGE", "children": ch, "phys": phys, "terms": terms, "nlabels": 3, "coefmode": coefmode,
                           "dupmode": "none", "struct": "product" if product else "random", "seed": rng.randrange(10 ** 6), "group": g})
+        # "row-symbol" family: Gamma = diag(g_i) * A across one edge, with A a 0/1 matrix whose COLUMNS are
+        # linearly dependent in a way that is not plain parallelism (each row carries its own symbol, so row
+        # elimination cannot see it): the minimal bond needs column additions that create new symbolic entries
+        for k in range(ctx.scale(24, 240) * budget_scale):
+            ch = rng.choice([[[1], []], [[1], [2], []], [[1, 2], [], []], [[1], [2, 3], [], []]])
+            n = len(ch)
+            phys = [3] * n
+            leaves = [i for i in range(n) if not ch[i]]
+            u = 0 if len(leaves) < 2 or rng.random() < 0.5 else leaves[0]
+            v = leaves[-1]
+            if u == v:
+                continue
+            r, c = rng.choice([3, 4, 4]), rng.choice([3, 4, 4, 5])
+            for _try in range(50):
+                A = [[rng.random() < 0.5 for _ in range(c)] for _ in range(r)]
+                if all(any(row) for row in A) and all(any(A[i][j] for i in range(r)) for j in range(c)):
+                    M = np.array(A, dtype=float)
+                    if np.linalg.matrix_rank(M) < min(r, c) and len({tuple(col) for col in M.T}) == c:
+                        break
+            else:
+                continue
+            terms = []
+            for i in range(r):
+                for j in range(c):
+                    if A[i][j]:
+                        terms.append([1, 1, f"g{i + 1}", [[u, f"A{i}_3"], [v, f"A{j}_3"]]])
+            cases.append({"kind": "ham", "method": "SGE", "children": ch, "phys": phys, "terms": terms, "nlabels": 5, "coefmode": "sym",
+                          "dupmode": "none", "struct": "rowsym", "seed": rng.randrange(10 ** 6), "group": 10000 + k})
         return cases
 
     def nontrivial(self, case):
